@@ -21,6 +21,7 @@ type FnResult struct {
 	Spawns      []string
 	Err         string
 	Ctx         *FnCtx
+	Decided     []*OblResult // structural obligations decided without a solver
 }
 
 func (e *Engine) newCtx(fn *ssa.Function, ct *FuncContract) *FnCtx {
@@ -28,7 +29,7 @@ func (e *Engine) newCtx(fn *ssa.Function, ct *FuncContract) *FnCtx {
 		heapNames: map[string]Sort{}, subFuncs: map[string]int{}, funcRefs: map[string]bool{}, typeTags: map[string]int{},
 		strLits: map[string]Term{}, strLitText: map[string]string{}, abstracted: map[string]bool{}, assumptions: map[string]bool{},
 		trusted: map[string]bool{}, frameWrites: map[string][]Term{}, oblCount: map[string]int{}, checks: map[string]bool{},
-		usedContracts: map[string]bool{}, subRoots: map[string]Term{}, trustedCalls: map[string]int{}}
+		usedContracts: map[string]bool{}, subRoots: map[string]Term{}, trustedCalls: map[string]int{}, strLenDone: map[string]bool{}}
 	if ct != nil {
 		c.modeBV = ct.Modes["bv"]
 		c.modeFP = ct.Modes["fp"]
@@ -137,6 +138,14 @@ func (e *Engine) VerifyFunc(key string) (res *FnResult) {
 	}
 	c.emitFrameObligations(st)
 	c.emitGuardObligations()
+	if ct != nil {
+		if nr, ok := ct.Attrs["noreach"]; ok {
+			res.Decided = append(res.Decided, e.noReach(fn, strings.Split(nr, ","))...)
+			for _, d := range res.Decided {
+				d.obl = &Obligation{Name: d.Name, Props: c.props, Kind: "prove", vc: c.vc}
+			}
+		}
+	}
 	res.Obls = c.obls
 	res.Abstracted = sortedKeys(c.abstracted)
 	res.Assumptions = sortedKeys(c.assumptions)
